@@ -52,6 +52,16 @@ def main():
     sys.exit(rc)
 
 
+# validation of the trusted preludes (which script belongs to which property, and in which tier it runs)
+PRELUDE_VALIDATION = {
+    "C13": {"quick": ["check_srctemplate.py"]},
+    "C06": {"quick": ["check_srcmeta.py"]},
+    "C03": {"thorough": ["check_srcparser.py", "check_srctemplate.py"]},
+    "C15": {"thorough": ["check_srctime.py", "check_srcleaf.py"]},
+    "C19": {"thorough": ["check_regex.py"]},
+}
+
+
 def impl_frames(e):
     """frames of the traceback of e that lie inside the implementation under test (or code the plugin generated from it)"""
     tb = traceback.extract_tb(e.__traceback__)
@@ -191,6 +201,24 @@ def run(pid, tier, seed, replay):
             drv.close()
     if not driver_ok:
         chk.disagree("driver", "bpdriver does not build against the current tables", "n/a", "n/a")
+
+    # ---- 6b: VALIDATE THE TRUSTED PRELUDES of the source translators against the real Python / Jinja / plugin
+    # (harness/tests/check_*.py evaluate the regenerated Lean definitions and the real code on the same inputs; a
+    # mismatch means a prelude or a translator misrepresents the language, i.e. the tie no longer says what it claims)
+    vals = PRELUDE_VALIDATION.get(pid, {})
+    scripts = list(vals.get("quick", [])) + (list(vals.get("thorough", [])) if tier == "thorough" else [])
+    if scripts and built:
+        done = {}
+        for sc in scripts:
+            rc2, out2, _t = C.sh([C.PY, os.path.join(C.ROOT, "harness", "tests", sc)], timeout=1500,
+                                 env=dict(os.environ, VERIF_SEED=str(seed)))
+            err2 = ""
+            last = (out2.strip().splitlines() or [""])[-1][:400]
+            done[sc] = {"rc": rc2, "summary": last}
+            if rc2 != 0:
+                chk.disagree("prelude validation " + sc, "harness/tests/" + sc, "translated definitions (Lean)", (out2 + err2)[-1500:])
+        chk.extra["explanation"] = (chk.extra.get("explanation", "") + " prelude validation: " +
+                                    "; ".join("%s rc=%d %s" % (k, v["rc"], v["summary"]) for k, v in done.items())).strip()
 
     # ---- 7: CLASSIFY
     printed = []
